@@ -1,0 +1,50 @@
+//go:build verif
+
+// Contracts for the contract-based verification in /verif (comment-only file).
+
+package memrevcache
+
+//@ import revcache "github.com/scionproto/scion/private/revcache"
+//@ import path_mgmt "github.com/scionproto/scion/pkg/private/ctrl/path_mgmt"
+
+//@ # ---- C31: the cache keeps the newest live revocation per interface.
+//@ # Abstract view of the zcache instance (ghost): zItem[kid] is the stored revocation (nil: none), zExp[kid] its
+//@ # expiry (Unix ns); zGetLive is the answer of the library's most recent Get ("an unexpired entry exists").
+//@ # Assumed (extern) contracts of zgo.at/zcache/v2: Get returns the stored value iff it is unexpired;
+//@ # SetWithExpire(k, v, d) with d > 0 stores v with expiry now+d (d <= 0 would mean "never expires").
+//@ spec func kid(ia uint64, ifID uint64) uint64 uninterpreted
+//@ ghost var zItem map[uint64]*path_mgmt.RevInfo
+//@ ghost var zExp map[uint64]int64
+//@ ghost var zGetLive bool
+//@ ghost var zGets int
+//@ macro kOf(k) = kid(uint64(k.IA), uint64(k.IfID))
+//@ extern (*zgo.at/zcache/v2.cache[github.com/scionproto/scion/private/revcache.Key, *github.com/scionproto/scion/pkg/private/ctrl/path_mgmt.RevInfo]).Get
+//@   modifies zGetLive, zGets
+//@   ensures zGetLive == result1 && zGets == old(zGets) + 1
+//@   ensures result1 ==> result0 == zItem[kOf(k)] && result0 != nil
+//@ extern (*zgo.at/zcache/v2.cache[github.com/scionproto/scion/private/revcache.Key, *github.com/scionproto/scion/pkg/private/ctrl/path_mgmt.RevInfo]).SetWithExpire
+//@   requires d > 0
+//@   modifies zItem[kOf(k)], zExp[kOf(k)]
+//@   ensures zItem[kOf(k)] == v && zExp[kOf(k)] > time.lastNow
+
+//@ # Insert: rejected when already expired; otherwise stored iff no live entry exists for the interface or the new
+//@ # revocation was ISSUED later than the stored one; a rejected insert changes nothing; what is stored is live.
+//@ func (*memRevCache).Insert
+//@   props C31
+//@   requires c != nil && rev != nil && c.c != nil
+//@   let kk = kid(uint64(rev.RawIsdas), uint64(rev.IfID))
+//@   modifies zGetLive, zGets, zItem[kk], zExp[kk], time.lastNow
+//@   ensures !result0 && zGets != old(zGets) ==> zGetLive
+//@   ensures result0 ==> zGets != old(zGets)
+//@   ensures !result0 ==> zItem[kk] == old(zItem[kk]) && zExp[kk] == old(zExp[kk])
+//@   ensures result0 ==> zItem[kk] == rev && zExp[kk] > old(time.lastNow)
+//@   ensures result0 && zGets != old(zGets) && zGetLive ==> old(zItem[kk]) != nil && rev.RawTimestamp > old(zItem[kk]).RawTimestamp
+//@   ensures !result0 && zGets != old(zGets) && zGetLive ==> old(zItem[kk]) != nil && rev.RawTimestamp <= old(zItem[kk]).RawTimestamp
+//@   ensures result1 == nil
+
+//@ func (*memRevCache).Get
+//@   props C31
+//@   requires c != nil && c.c != nil
+//@   modifies zGetLive, zGets
+//@   ensures result1 == nil
+//@   ensures result0 != nil ==> result0 == zItem[kOf(key)]
